@@ -40,6 +40,33 @@ bool is_numeric(Type *ty) {
   return is_integer(ty) || is_flonum(ty);
 }
 
+// True if a scalar inside `ty`, which starts at `offset`, does not sit
+// at a multiple of its alignment (possible only in a packed struct).
+static bool has_unaligned_member(Type *ty, int offset) {
+  if (ty->kind == TY_STRUCT || ty->kind == TY_UNION) {
+    for (Member *mem = ty->members; mem; mem = mem->next)
+      if (has_unaligned_member(mem->ty, offset + mem->offset))
+        return true;
+    return false;
+  }
+
+  if (ty->kind == TY_ARRAY) {
+    for (int i = 0; i < ty->array_len; i++)
+      if (has_unaligned_member(ty->base, offset + ty->base->size * i))
+        return true;
+    return false;
+  }
+
+  return offset % ty->align != 0;
+}
+
+// The x86-64 psABI passes and returns a struct or union in memory
+// (class MEMORY) if it is larger than 16 bytes or contains an
+// unaligned member; otherwise in up to two registers.
+bool is_memory_class(Type *ty) {
+  return ty->size > 16 || has_unaligned_member(ty, 0);
+}
+
 bool is_compatible(Type *t1, Type *t2) {
   if (t1 == t2)
     return true;
